@@ -1,5 +1,6 @@
 import Setec.Model.Updater
 import Setec.Generated.Facts
+import Setec.Proofs.Updater2
 /-!
 # C15 - updaters and watchers never miss the latest secret value
 
@@ -168,5 +169,26 @@ theorem fact_get_atomic :
     Facts.storeLockTokens.lookup "Updater.Get" = some ["lock:mu", "defer-unlock:mu", "build"] ∧
     Facts.storeLockTokens.lookup "Updater.Err" = some ["lock:mu", "defer-unlock:mu"] := by
   decide
+
+/-! ### concurrent Get callers -/
+
+/-- Two goroutines calling Get on one updater, installs arriving at any moment: with the
+mutex held across a Get's three sub-steps (the code: `fact_get_atomic`), whenever no Get is in
+progress a notification is pending or the value is built from the newest install - no update
+is lost, for every interleaving. -/
+theorem concurrent_gets_no_lost_update (es : List Updater2.Ev) (s : Updater2.State)
+    (hr : Updater2.run true Updater2.init es = some s)
+    (h1 : s.g1.phase = .idle) (h2 : s.g2.phase = .idle) : s.pending = true ∨ s.valueSrc = s.cur :=
+  (Updater2.inv_run es Updater2.init s Updater2.inv_init hr).2.1 h1 h2
+
+/-- ...and the mutex is what makes it so: with the same sub-steps not covered by it (a Get that
+releases the lock around the builder) there is an interleaving after which both callers are
+done, no notification is pending, and the value is built from an install that is not the
+newest - it stays stale until some later install. -/
+theorem unlocked_gets_lose_update :
+    ∃ es s, Updater2.run false Updater2.init es = some s ∧ s.g1.phase = .idle ∧ s.g2.phase = .idle ∧
+      s.pending = false ∧ s.valueSrc ≠ s.cur :=
+  ⟨[.install, .drain false, .readCur false, .install, .drain true, .readCur true, .build true, .build false],
+   _, rfl, by decide, by decide, by decide, by decide⟩
 
 end Setec.C15
